@@ -305,51 +305,87 @@ def is_const(x, *values):
     return isinstance(x, tuple) and len(x) > 1 and x[0] == "const" and (not values or x[1] in values)
 
 
-def _operand_locals(op):
+def _place_item(pl):
+    """(local, first-level field index or None) for a place; plus index locals."""
+    out = []
+    fld = None
+    pr = pl.get("p", [])
+    # skip leading derefs
+    i = 0
+    while i < len(pr) and pr[i] == "deref":
+        i += 1
+    if i < len(pr) and isinstance(pr[i], dict) and "f" in pr[i] and i == 0:
+        fld = pr[i]["f"]
+    out.append((pl["l"], fld))
+    for p in pr:
+        if isinstance(p, dict) and "index" in p:
+            out.append((p["index"], None))
+    return out
+
+
+def _operand_items(op):
     if op.get("k") in ("copy", "move"):
-        out = [op["pl"]["l"]]
-        for p in op["pl"].get("p", []):
-            if isinstance(p, dict) and "index" in p:
-                out.append(p["index"])
-        return out
+        return _place_item(op["pl"])
     return []
 
 
-def _rv_locals(rv):
+def _rv_items(rv):
     out = []
     for key in ("op", "a", "b"):
         if key in rv and isinstance(rv[key], dict):
-            out += _operand_locals(rv[key])
+            out += _operand_items(rv[key])
     if "pl" in rv:
-        out.append(rv["pl"]["l"])
+        out += _place_item(rv["pl"])
     for o in rv.get("ops", []):
-        out += _operand_locals(o)
+        out += _operand_items(o)
     return out
+
+
+def _operand_locals(op):
+    return [l for l, f in _operand_items(op)]
+
+
+def _rv_locals(rv):
+    return [l for l, f in _rv_items(rv)]
+
+
+def trace_items(fn, start_items):
+    """Field-sensitive (one level, through tuple/ADT aggregates) backward trace. Returns set of (local, field)."""
+    d = defs_of(fn)
+    seen = set()
+    stack = list(start_items)
+    while stack:
+        item = stack.pop()
+        if item in seen:
+            continue
+        seen.add(item)
+        l, fld = item
+        defs = d.all(l)
+        if fld is not None:
+            full = [dd for dd in defs if dd[0] == "stmt"]
+            if defs and len(full) == len(defs) and all(dd[3]["rv"]["k"] == "agg" and dd[3]["rv"].get("ak") in ("tuple", "adt")
+                                                       and fld < len(dd[3]["rv"]["ops"]) for dd in full):
+                for dd in full:
+                    stack.extend(_operand_items(dd[3]["rv"]["ops"][fld]))
+                continue
+        for dd in defs:
+            if dd[0] in ("stmt", "pstmt"):
+                stack.extend(_rv_items(dd[3]["rv"]))
+            else:
+                for a in dd[2]["args"]:
+                    stack.extend(_operand_items(a))
+                stack.extend(_operand_items(dd[2]["func"]))
+    return seen
 
 
 def trace_locals(fn, start_locals):
     """All locals the given locals are computed from (through every definition, call arguments included)."""
-    d = defs_of(fn)
-    seen = set()
-    stack = list(start_locals)
-    while stack:
-        l = stack.pop()
-        if l in seen:
-            continue
-        seen.add(l)
-        for dd in d.all(l):
-            if dd[0] in ("stmt", "pstmt"):
-                stack.extend(_rv_locals(dd[3]["rv"]))
-            else:
-                for a in dd[2]["args"]:
-                    stack.extend(_operand_locals(a))
-                stack.extend(_operand_locals(dd[2]["func"]))
-    return seen
+    return {l for l, f in trace_items(fn, [(l, None) for l in start_locals])}
 
 
 def operand_trace(fn, op):
-    return trace_locals(fn, _operand_locals(op))
+    return {l for l, f in trace_items(fn, _operand_items(op))}
 
 
 def place_trace(fn, pl):
-    return trace_locals(fn, [pl["l"]])
+    return {l for l, f in trace_items(fn, _place_item(pl))}
